@@ -173,6 +173,11 @@ func c19Run(cfg c19Config) {
 		default:
 			vr.Assert(g.GPUs() > 0, "C19.fraction-quota-positive")
 		}
+		if !hasCnt && f == f {
+			// the quota the scheduler accounts for one device is the admitted fraction to two decimals
+			d := g.GPUs() - f
+			vr.Assert(d <= 0.0051 && d >= -0.0051, "C19.fraction-quota-is-the-fraction-to-two-decimals")
+		}
 	}
 
 	if hasMem {
